@@ -1381,9 +1381,9 @@ pub fn run(ctx: &Ctx, rep: &mut Report, replay: Option<&serde_json::Value>) {
     if ctx.tier == Tier::Thorough {
         for rec in Rec::ALL {
             let target = format!("dec_{}", rec.name());
-            crate::fz::campaign(ctx, rep, &target, 1_000_000, 1024, |d, i| x.judge_record(rec, d, true, true, i));
+            crate::fz::campaign(ctx, rep, &target, 60_000, 1024, |d, i| x.judge_record(rec, d, true, true, i));
         }
-        crate::fz::campaign(ctx, rep, "archive_file", 100_000, 4096, |d, i| x.judge_archive(d, &probes, CALL_ALL, true, i));
+        crate::fz::campaign(ctx, rep, "archive_file", 50_000, 4096, |d, i| x.judge_archive(d, &probes, CALL_ALL, true, i));
         x.flush(rep);
     }
 }
